@@ -1780,6 +1780,55 @@ def predefined_models(mk, name):
                   mk.const(H.build_sparse_matrix(sector=(ka, kb)).toarray()), mk.const(want))
 
 
+@obligation(PROP, params=[{"case": c} for c in HS_CASES], exc_is_violation=True)
+def hilbertspace_reordering(mk, case):
+    """HilbertSpace.with_ordering(order): same sites, dimensions, symmetry, sector and species under a new register
+    order - the new space enumerates exactly the configurations of the old one (a sector is a set of configurations,
+    whatever the order of the registers), consistently with its own config <-> rank maps, and equals the space
+    constructed directly with that order"""
+    mk.encodes(HilbertSpace.with_ordering, HilbertSpace.rank_to_config, HilbertSpace.config_to_rank)
+    spec = HS_CASES[case]
+    hs = HilbertSpace(**spec["kw"])
+    sites = list(hs.sites)
+    has_species = "species" in spec["kw"]
+
+    def configs(h):
+        return [tuple(sorted(((repr(s), int(v)) for s, v in h.rank_to_config(r).items()))) for r in range(int(h.size))]
+
+    base = configs(hs)
+    orders = [("True", True), ("reversed", tuple(reversed(sites))), ("rotated", tuple(sites[2:] + sites[:2])),
+              ("keyfn", (lambda s: (repr(s)[::-1], repr(s))))]
+    if has_species:
+        orders += [("blocked", "blocked"), ("interleaved", "interleaved")]
+    for name, order in orders:
+        try:
+            h2 = hs.with_ordering(order)
+        except (TypeError, ValueError) as e:
+            # e.g. the 'blocked' / 'interleaved' presets need sites labelled (species, ...): a rejection
+            mk.note(f"order={name}: rejected ({e})"[:120])
+            continue
+        mk.same(f"order={name}: same set of sites", sorted(map(repr, h2.sites)), sorted(map(repr, sites)))
+        mk.same(f"order={name}: same symmetry", h2.symmetry, hs.symmetry)
+        mk.same(f"order={name}: same size", int(h2.size), int(hs.size))
+        c2 = configs(h2)
+        if hs.symmetry != "U1U1" or has_species:
+            # (a U1U1 sector given by register positions, without species, is defined by the order itself)
+            mk.same(f"order={name}: the configurations of the sector are the same set", sorted(c2), sorted(base))
+        mk.same(f"order={name}: no configuration is enumerated twice", len(set(c2)), len(c2))
+        back = [int(h2.config_to_rank(h2.rank_to_config(r))) for r in range(int(h2.size))]
+        mk.same(f"order={name}: config_to_rank(rank_to_config(r)) == r", back, list(range(int(h2.size))))
+        kw = dict(spec["kw"])
+        kw["order"] = order
+        if isinstance(kw.get("sites"), (int, range)):
+            kw["sites"] = list(range(kw["sites"])) if isinstance(kw["sites"], int) else list(kw["sites"])
+        try:
+            h3 = HilbertSpace(**kw)
+            mk.same(f"order={name}: same register order as the directly constructed space", list(map(repr, h2.sites)), list(map(repr, h3.sites)))
+            mk.same(f"order={name}: same enumeration as the directly constructed space", c2, configs(h3))
+        except (TypeError, ValueError) as e:
+            mk.note(f"order={name}: direct construction rejected ({e})"[:120])
+
+
 # ---------------------------------------------------------------------- builder histories
 
 @obligation(PROP)
